@@ -50,4 +50,39 @@ func corpusKnownFindings(st *Stats) {
 	}
 }
 
-func glueTargeted(st *Stats) {}
+// Fixed pairs that every run evaluates (each must satisfy all predicates):
+// the edits the property names explicitly.
+func glueTargeted(st *Stats) {
+	run := func(name string, pa *L.Project, edit func(p *L.Project)) {
+		pb := pa.Clone()
+		edit(pb)
+		ch, ok := checkPair(st, "targeted:"+name, pa, pb, true)
+		st.Note("targeted", name, ch && ok)
+	}
+	// source-map-only change: a comment line added, sourcesContent excluded
+	{
+		pa := &L.Project{Mods: []L.Module{{Name: "a.js", Lit: "a", Comment: "one"}}, Opt: baseOpt("a.js")}
+		pa.Opt.Sourcemap, pa.Opt.NoSrcContent = "external", true
+		run("sourcemap-only", pa, func(p *L.Project) { p.Mods[0].Comment = "one\n// two" })
+	}
+	// dynamic-import cycle between chunks: editing b must rename a (and b)
+	{
+		pa := &L.Project{Mods: []L.Module{{Name: "a.js", Lit: "a", Dynamic: []int{1}}, {Name: "b.js", Lit: "b", Dynamic: []int{0}, Static: []int{2}}, {Name: "c.js", Lit: "c"}}, Opt: baseOpt("a.js")}
+		run("cycle-content", pa, func(p *L.Project) { p.Mods[2].Lit = "c2" })
+	}
+	// an asset referenced from CSS url() and from JS: editing its bytes renames everything that refers to it
+	{
+		pa := &L.Project{Mods: []L.Module{{Name: "a.js", Lit: "a", Assets: []string{"i.png"}, CSS: []string{"s.css"}}},
+			CSS:    []L.CSSFile{{Name: "s.css", Color: "red", URLs: []string{"i.png"}}},
+			Assets: map[string]string{"i.png": "PNG1"}, Opt: baseOpt("a.js")}
+		pa.Opt.PublicPath = "https://cdn.example.com/x/"
+		run("asset-bytes", pa, func(p *L.Project) { p.Assets["i.png"] = "PNG2" })
+		run("public-path", pa, func(p *L.Project) { p.Opt.PublicPath = "https://cdn.example.com/y/" })
+		run("asset-names", pa, func(p *L.Project) { p.Opt.AssetNames = "media/[name]-[hash]" })
+	}
+	// placeholder-like text in the inputs next to real references
+	{
+		pa := &L.Project{Mods: []L.Module{{Name: "a.js", Lit: "a", Dynamic: []int{1}, Planted: "AAAAAAAAAAAAAAAAC00000001"}, {Name: "b.js", Lit: "b", Planted: "abcdefghijklmnopA00000000"}}, Opt: baseOpt("a.js")}
+		run("planted", pa, func(p *L.Project) { p.Mods[1].Planted = "abcdefghijklmnopC00000000" })
+	}
+}
